@@ -28,28 +28,35 @@ ASSUMPTIONS = [
 ]
 
 TOLS = [0.01, 0.1, 0.5]
-METRICS = ["ENERGY", "LATENCY", "ENERGY_DELAY_PRODUCT"]
+# two-objective fronts are where rounding drops something on small specs, so ENERGY|LATENCY gets half the slots
+METRICS = ["ENERGY", "ENERGY|LATENCY", "ENERGY_DELAY_PRODUCT", "ENERGY|LATENCY", "LATENCY", "ENERGY|LATENCY"]
 OBJ = {"ENERGY": "energy", "LATENCY": "latency", "ENERGY_DELAY_PRODUCT": "edp"}
 
 
 @st.composite
 def cases(draw, slot):
-    mode = slot["mode"]
-    if draw(st.integers(0, 2)) < 2:
-        # one Einsum with many divisors per rank: large pmapping groups, where rounding can drop something
-        spec = draw(MM.small_specs(shapes=("matmul", "matvec"), bound_pool=[4, 6, 8, 12, 12], max_ops=2000, tight=True))
+    mode, metrics = slot["mode"], slot["metrics"]
+    pick = draw(st.integers(0, 3))
+    if metrics in ("ENERGY|LATENCY", "ENERGY_DELAY_PRODUCT") and pick < 3:
+        # energy and latency pull apart: many-point fronts, where rounding has something to drop
+        spec = draw(MM.small_specs(shapes=("chain2", "chain2", "matmul", "matvec"), tight=True, dear_main="dear_main",
+                                   three_level_single=False))
+    elif pick < 2:
+        # one Einsum with many divisors per rank: large tile-shape enumerations
+        spec = draw(MM.small_specs(shapes=("matmul", "matvec"), bound_pool=[4, 6, 8, 12, 12], max_ops=2000, tight=True,
+                                   three_level_single=False))
     else:
-        spec = draw(MM.small_specs(shapes=("chain2", "elementwise2"), tight=True))
+        spec = draw(MM.small_specs(shapes=("chain2", "elementwise2", "matmul"), tight=draw(st.sampled_from([True, "very"]))))
     t = slot["t"] if mode in ("objective", "both") else 0
     r = slot["r"] if mode in ("resource", "both") else 0
-    return {"spec": spec, "metrics": slot["metrics"], "objective_tolerance": t, "resource_usage_tolerance": r,
+    return {"spec": spec, "metrics": metrics, "objective_tolerance": t, "resource_usage_tolerance": r,
             "prune_threshold": draw(st.sampled_from([1000, 1000, 8, 1]))}
 
 
 def check(desc, col):
     spec, metrics = desc["spec"], desc["metrics"]
     t, r = desc["objective_tolerance"], desc["resource_usage_tolerance"]
-    obj = OBJ[metrics]
+    objs = ["energy", "latency"] if metrics == "ENERGY|LATENCY" else [OBJ[metrics]]
     mode = "both" if (t and r) else ("objective" if t else "resource")
     a = MM.run(spec, metrics=metrics, what="exact run")
     knobs = {"objective_tolerance": t, "resource_usage_tolerance": r}
@@ -61,6 +68,7 @@ def check(desc, col):
     samp = {"shape": spec["shape"], "bounds": spec["bounds"], "metrics": metrics, **knobs}
     thr = desc.get("prune_threshold", 1000)
     labels.append(f"prune_threshold:{thr}")
+    fpr = [spec, metrics, t, r, thr]
     try:
         # DESIGN 4.6: tile-shape exploration only prunes (and only then applies the tolerances) once a partial
         # enumeration holds >= 1000 choices; lowering that literal exercises the path on small specs.  The exact
@@ -70,33 +78,37 @@ def check(desc, col):
                 labels.append("prune_threshold:inactive")
             b = MM.run(spec, metrics=metrics, mapper=knobs, what=f"tolerance run {knobs}")
     except Violation as v:
-        col.case([spec, metrics, t, r], a.feasible, labels + ["tolerance-run-crashed"], sample=samp)
+        col.case(fpr, a.feasible, labels + ["tolerance-run-crashed"], sample=samp)
         if "InvalidMappingError" in v.key:
             raise Violation("a mapping returned under " + str(knobs) + " is invalid: " + v.message, key=f"{mode}:invalid-mapping-returned")
         raise
     if not a.feasible:
-        col.case([spec, metrics, t, r], False, labels + ["exact-infeasible" + ("" if not b.feasible else "->tol-feasible")], sample=samp)
+        col.case(fpr, False, labels + ["exact-infeasible" + ("" if not b.feasible else "->tol-feasible")], sample=samp)
         if b.feasible:
             raise Violation(f"exact run found no mapping ({a.why}) but the run with {knobs} returned {len(b.rows)}",
                             key=f"{mode}:feasible-only-with-tolerance")
         return
-    x = a.best(obj)
     if not b.feasible:
-        col.case([spec, metrics, t, r], True, labels + ["tol-infeasible"], sample=samp)
+        col.case(fpr, True, labels + ["tol-infeasible"], sample=samp)
         if r == 0:
-            raise Violation(f"objective_tolerance={t}: exact optimum {obj}={x!r} exists but the tolerance run found no mapping: {b.why}",
+            raise Violation(f"objective_tolerance={t}: the exact run returned {len(a.rows)} mapping(s) but the tolerance run found none: {b.why}",
                             key="objective:lost-feasibility")
         return      # with r > 0 near-full mappings may be dropped (documented)
-    y = b.best(obj)
-    ia, ib = a.argbest(obj), b.argbest(obj)
-    same_map = a.canon(ia) == b.canon(ib)
-    different = (not same_map) or not MM.same(x, y)
+    x = {o: a.best(o) for o in objs}
+    y = {o: b.best(o) for o in objs}
+    ia = {o: a.argbest(o) for o in objs}
+    ib = {o: b.argbest(o) for o in objs}
+    same_map = all(a.canon(ia[o]) == b.canon(ib[o]) for o in objs)
+    changed = any(not MM.same(x[o], y[o]) for o in objs)
+    different = (not same_map) or changed or len(a.rows) != len(b.rows)
     labels.append("different" if different else "same-mapping")
     labels.append(f"{mode}:{'different' if different else 'same-mapping'}")
-    if not MM.same(x, y):
+    if changed:
         labels.append(f"{mode}:objective-changed")
+    if len(b.rows) < len(a.rows):
+        labels.append(f"{mode}:fewer-rows")
     samp.update(exact_opt=x, tol_best=y, n_exact=len(a.rows), n_tol=len(b.rows))
-    col.case([spec, metrics, t, r], different, labels, sample=samp)
+    col.case(fpr, different, labels, sample=samp)
 
     # validity of everything returned (the property's claim for r > 0; harmless for r == 0)
     for i, u in enumerate(b.usage):
@@ -104,15 +116,16 @@ def check(desc, col):
             if frac > 1 + 1e-6:
                 raise Violation(f"{knobs}: returned mapping {i} uses {frac * 100:.4g}% of {res}\n {b.canon(i)}",
                                 key=f"{mode}:over-capacity")
-    if y < x * (1 - 1e-5):
-        raise Violation(
-            f"{knobs} metrics={metrics}: tolerance run returned {obj}={y!r}, below the exact optimum {x!r}\n"
-            f" exact: {a.canon(ia)}\n tol  : {b.canon(ib)}", key=f"{mode}:below-exact-optimum")
-    if r == 0 and y > x * (1 + t) * (1 + 1e-5):
-        raise Violation(
-            f"objective_tolerance={t} metrics={metrics}: best returned {obj}={y!r} exceeds (1+t) x exact optimum {x!r} "
-            f"(ratio {y / x:.6g} > {1 + t})\n exact: {a.canon(ia)}\n tol  : {b.canon(ib)}",
-            key=f"objective:{metrics}:bound-exceeded")
+    for o in objs:
+        if y[o] < x[o] * (1 - 1e-5):
+            raise Violation(
+                f"{knobs} metrics={metrics}: tolerance run returned {o}={y[o]!r}, below the exact optimum {x[o]!r}\n"
+                f" exact: {a.canon(ia[o])}\n tol  : {b.canon(ib[o])}", key=f"{mode}:below-exact-optimum")
+        if r == 0 and y[o] > x[o] * (1 + t) * (1 + 1e-5):
+            raise Violation(
+                f"objective_tolerance={t} metrics={metrics}: best returned {o}={y[o]!r} exceeds (1+t) x exact optimum {x[o]!r} "
+                f"(ratio {y[o] / x[o]:.6g} > {1 + t})\n exact: {a.canon(ia[o])}\n tol  : {b.canon(ib[o])}",
+                key=f"objective:{metrics}:bound-exceeded")
 
 
 N = {"quick": 48, "thorough": 480}
@@ -120,8 +133,8 @@ MODES = ["objective", "resource", "both"]
 
 
 def shards(tier, seed):
-    slots = [{"mode": MODES[i % 3], "t": TOLS[(i // 3 + seed) % 3], "r": TOLS[(i // 9 + seed) % 3],
-              "metrics": METRICS[(i // 3 + i // 9) % 3]} for i in range(N[tier])]
+    slots = [{"mode": MODES[i % 3], "t": TOLS[(i // 3 + i // 18 + seed) % 3], "r": TOLS[(i // 9 + seed) % 3],
+              "metrics": METRICS[(i // 3) % len(METRICS)]} for i in range(N[tier])]
     return MM.deal(slots, tier, seed)
 
 
